@@ -2,12 +2,14 @@ package c20
 
 import (
 	"encoding/json"
+	"fmt"
 	"math/rand"
 	"sort"
 	"strings"
 
 	"verif/harness/mbt"
 	"verif/harness/props/trcheck"
+	"verif/harness/props/trsrc"
 )
 
 // moduleOrder is the second half of C20: Translate.tla's CanonOrder (TLC: the assembled module
@@ -93,6 +95,71 @@ func moduleOrder(rep *mbt.Report, tier string, rng *rand.Rand) {
 		mbt.Infra("LLVM rejects %d of %d permuted sources", discarded, len(cs))
 	}
 	rep.Extra["permuted_sources"] = n
+	typeAliasOrder(rep, tier, permAll)
+}
+
+// typeAliasOrder: sources with type aliases (`%a = type %x`, outside LLVM's grammar, accepted by the parser).
+// WHICH order the parser lists such definitions in is the business of the known C04 finding (an alias is a
+// look-alike copy printed under the aliased name); what C20 still requires of them is that the order is ONE
+// order: the same for every permutation of the same definitions and for every parse of the same text
+// (Translate.tla, source set "aliasperms": CanonOrder holds on every processing order).
+func typeAliasOrder(rep *mbt.Report, tier string, permAll int) {
+	reps := 10
+	if tier == "thorough" {
+		reps = 40
+	}
+	typeLines := func(printed string) string {
+		var ls []string
+		for _, l := range strings.Split(printed, "\n") {
+			if strings.HasPrefix(l, "%") && strings.Contains(l, " = type ") {
+				ls = append(ls, l)
+			}
+		}
+		return strings.Join(ls, "\n")
+	}
+	first := map[string][2]string{} // multiset of entities -> type-definition lines, text
+	n := 0
+	for _, v := range trcheck.Generate(rep, "aliasperms", permAll) {
+		if v.Want.St != "ok" {
+			continue
+		}
+		var es []string
+		for i := range v.Src {
+			b, _ := json.Marshal(v.Src[i])
+			es = append(es, string(b))
+		}
+		sort.Strings(es)
+		g := strings.Join(es, "\n")
+		text := trsrc.RenderLay(v.Src, v.Lay)
+		for r := 0; r < reps; r++ {
+			m, err, p := trcheck.ParseReal("alias.ll", text)
+			if m == nil || err != nil || p != "" {
+				break // acceptance is C01 / C04 / C05's business
+			}
+			var printed string
+			if _, pp := mbt.Guard(func() { printed = m.String() }); pp {
+				break
+			}
+			got := typeLines(printed)
+			rep.Count(fmt.Sprintf("alias-perm:%d:%s", r, text), true)
+			f, ok := first[g]
+			if !ok {
+				first[g] = [2]string{got, text}
+				n++
+				continue
+			}
+			if got != f[0] {
+				how := "permutation"
+				if f[1] == text {
+					how = "repetition"
+				}
+				rep.Fail(mbt.Failure{Signature: "C20|module-order|types|type-alias-order-varies-with-" + how,
+					What: "the type definitions of the same set of definitions are listed in two different orders:\n" + f[0] + "\n-- and --\n" + got + "\ninput:\n" + text + "\nfirst input:\n" + f[1], Case: map[string]string{"src": text}})
+				break
+			}
+		}
+	}
+	rep.Extra["type_alias_sources"] = n
 }
 
 func replayModuleOrder(rep *mbt.Report, src string) {
